@@ -495,6 +495,105 @@ def check_k3(rep, idx):
                                       "(PartImpl<i>::%s), not a re-implementation or a copy of the input" % (A.text(x)[:60], opname, verdict, opname), f, l))
 
 
+# ---- B3: Bundle operation == tuple / block arrangement of the parts' own operation, as power series along rays ------------------
+
+def check_b3(rep, bundles, tier):
+    import irw
+    import poly
+    import rays
+    import raychk
+    from jet import Series
+    rep.rule("B3", "Bundle exp / log / dr_exp / dr_expinv / d2r_exp / d2r_expinv / ad equal the tuple resp. block arrangement of the parts' own "
+             "functions, as power series along rational rays incl. rays on which one part's tangent is exactly zero", minimum=10)
+    W = irw.IRW("c06_b3", groups.PRELUDE, chunk=2)
+    for g in bundles:
+        if g.scalar != "double":
+            continue
+        hess = raychk.has_hessian(g)
+        N, R = g.dof, g.rep
+        pre = ("  using GT = %s;\n  Eigen::Map<const Eigen::Matrix<double, GT::Dof, 1>> a(p0);\n" % g.ctype)
+        parts = []
+        doff = roff = 0
+        for i, m in enumerate(g.members):
+            parts.append((i, m, doff, roff))
+            doff += m.dof
+            roff += m.rep
+        sig = "const double* p0, double* o1, double* o2"
+
+        def seg(m, doff):
+            return "a.template segment<%d>(%d)" % (m.dof, doff)
+
+        def om(n, r, c):
+            return "  Eigen::Map<Eigen::Matrix<double, %d, %d>> %s(o%s);\n" % (r, c, n, n[-1])
+        # exp: coefficients
+        body = pre + om("m1", R, 1) + om("m2", R, 1) + "  m1 = GT::exp(a).coeffs();\n"
+        for i, m, d_, r_ in parts:
+            if m.key.startswith("V"):
+                body += "  m2.template segment<%d>(%d) = %s;\n" % (m.rep, r_, seg(m, d_))
+            else:
+                body += "  m2.template segment<%d>(%d) = %s::exp(%s).coeffs();\n" % (m.rep, r_, m.ctype, seg(m, d_))
+        W.add("b3_%s_exp" % g.key, sig, body, g=g, shape=(R, 1), what="Bundle exp == tuple of the parts' exp")
+        # log(exp)
+        body = pre + om("m1", N, 1) + om("m2", N, 1) + "  m1 = GT::exp(a).log();\n"
+        for i, m, d_, r_ in parts:
+            if m.key.startswith("V"):
+                body += "  m2.template segment<%d>(%d) = %s;\n" % (m.dof, d_, seg(m, d_))
+            else:
+                body += "  m2.template segment<%d>(%d) = %s::exp(%s).log();\n" % (m.dof, d_, m.ctype, seg(m, d_))
+        W.add("b3_%s_logexp" % g.key, sig, body, g=g, shape=(N, 1), what="Bundle log(exp) == tuple of the parts' log(exp)")
+        for fn in ("dr_exp", "dr_expinv", "ad"):
+            body = pre + om("m1", N, N) + om("m2", N, N) + "  m1 = GT::%s(a);\n  m2.setZero();\n" % fn
+            for i, m, d_, r_ in parts:
+                body += "  m2.template block<%d, %d>(%d, %d) = smooth::%s<%s>(%s);\n" % (m.dof, m.dof, d_, d_, fn, m.ctype, seg(m, d_))
+            W.add("b3_%s_%s" % (g.key, fn), sig, body, g=g, shape=(N, N), what="Bundle %s == block diagonal of the parts' %s" % (fn, fn))
+        if hess:
+            for fn in ("d2r_exp", "d2r_expinv"):
+                body = (pre + "  Eigen::Map<Eigen::Matrix<double, %d, %d>> m1(o1), m2(o2);\n" % (N, N * N) + "  m1 = GT::%s(a);\n  m2.setZero();\n" % fn)
+                for i, m, d_, r_ in parts:
+                    body += ("  {\n    const auto Hp = smooth::%s<%s>(%s);\n    for (int i = 0; i < %d; ++i)\n"
+                             "      m2.template block<%d, %d>(%d, %d * (%d + i) + %d) = Hp.template block<%d, %d>(0, %d * i);\n  }\n"
+                             % (fn, m.ctype, seg(m, d_), m.dof, m.dof, m.dof, d_, N, d_, d_, m.dof, m.dof, m.dof))
+                W.add("b3_%s_%s" % (g.key, fn), sig, body, g=g, shape=(N, N * N), what="Bundle %s == block arrangement of the parts' %s" % (fn, fn))
+    facts = W.build()
+    rep.unit("%d Bundle-vs-parts witnesses in the series domain" % len(W.wits))
+    for fname, (ff, meta, mod) in sorted(facts.items()):
+        g = meta["g"]
+        r, c = meta["shape"]
+        base_dir = raychk.direction(g, 0, tscale=raychk.TSCALE)
+        dirs = [("ray", base_dir)]
+        z = raychk.zero_part(g, base_dir)
+        if z is not None:
+            dirs.append(("zero-part ray", z))
+        for label, a0 in dirs:
+            inputs = {"a%d" % i: Series({1: a0[i]}, rays.N_IN) for i in range(g.dof)}
+
+            def cell_var(p, off, ty):
+                return "a%d" % (off // 8) if p == 0 else None
+            inst = "%s, %s" % (meta["what"], label)
+            try:
+                paths, tstar = rays.evaluate(ff, cell_var, inputs, max_paths=512)
+                bad = None
+                for path in paths:
+                    M1 = rays.mat_from(path["stores"], 1, r, c)
+                    M2 = rays.mat_from(path["stores"], 2, r, c)
+                    mm, known = rays.first_mismatch(M1, M2, 8)
+                    if mm is not None and bad is None:
+                        bad = (mm, path)
+            except poly.Narrowing as ex:
+                rep.instance("B3", g.ctype, inst, ok=False, sample={})
+                rep.violation(Finding("B3", g.ctype, inst, "a value is narrowed to single precision: %s" % ex, None, None))
+                continue
+            except (poly.Unsupported, ir.Unresolved) as ex:
+                rep.broke("%s (%s): cannot abstract into the series domain: %s" % (fname, label, ex))
+                continue
+            # both sides take the same switch decisions (shared between equal abstract values), so they must agree on every path
+            rep.instance("B3", g.ctype, inst, ok=bad is None, sample={"witness": fname, "paths": len(paths), "direction": [str(x) for x in a0]})
+            if bad:
+                mm, path = bad
+                rep.violation(Finding("B3", g.ctype, inst, "%s fails along a = t*(%s): entry (%d,%d): coefficient of t^%d is %s for the Bundle, %s from the parts"
+                                      % (meta["what"], ", ".join(str(x) for x in a0), mm[0], mm[1], mm[2], mm[3], mm[4]), None, None, detail={"witness": fname}))
+
+
 def check(rep, tier, replay=None):
     rep.explanations.append(
         "C06: K1 types every index expression of the BundleImpl template pattern (holds for all compositions); B1/B2 read "
@@ -506,6 +605,7 @@ def check(rep, tier, replay=None):
     if tier == "quick":
         gs = gs[:1] + [groups.bundle([groups.base("SE3"), groups.base("SO2"), groups.vec(3), groups.base("C1")])]
     check_bundles(rep, gs, tier)
+    check_b3(rep, gs, tier)
     check_translation(rep, tier)
     objs = fe.ast_dump("BundleImpl")
     rep.unit("umbrella TU filtered BundleImpl")
